@@ -110,7 +110,7 @@ def run(ctx):
         d_field, d_rf, d_rfd, d_mi, resid, errflag = r
         steps += len(cases[k]["times"]) - 1
         worst = max(worst, resid)
-        if not resid <= RES_TOL:
+        if not resid <= rescorr.resid_tol(cases[k], impls[k], RES_TOL):
             ctx.violations.append(dict(
                 what="a stored time level does not satisfy the implicit update built from the previous level "
                      "(relative residual of the model's step system above rounding level)",
@@ -144,4 +144,4 @@ def replay(payload):
         return 1
     res = rescorr.run_cases(ctx, [case], [im], "replay", shard=1)
     print(json.dumps(dict(result=res, recorded=payload.get("observed")), default=str))
-    return 0 if res[0] and res[0][4] <= RES_TOL and res[0][0] <= field_tol(case) else 1
+    return 0 if res[0] and res[0][4] <= rescorr.resid_tol(case, im, RES_TOL) and res[0][0] <= field_tol(case) else 1
